@@ -423,11 +423,9 @@ func (r *reporter) AllocateHistogram(
 				durationUpperBound: pair.UpperBoundDuration(),
 				metric:             &counter,
 			}
-			delta = len(r.bucketIDTagName) + len(r.bucketTagName) + len(hbucket.bucketID)
 		)
 
 		hbucket.metric.metric.Tags = mtags
-		hbucket.metric.size = r.calculateSize(hbucket.metric.metric)
 
 		if isDuration {
 			bname := r.stringInterner.Intern(
@@ -435,7 +433,7 @@ func (r *reporter) AllocateHistogram(
 					r.durationBucketString(pair.UpperBoundDuration()),
 			)
 			hbucket.bucket = bname
-			hbucket.metric.size += int32(delta + len(bname))
+			hbucket.metric.size = r.sizeWithBucketTags(hbucket.metric.metric, hbucket.bucketID, bname)
 			cachedDurationBuckets = append(cachedDurationBuckets, hbucket)
 		} else {
 			bname := r.stringInterner.Intern(
@@ -443,7 +441,7 @@ func (r *reporter) AllocateHistogram(
 					r.valueBucketString(pair.UpperBoundValue()),
 			)
 			hbucket.bucket = bname
-			hbucket.metric.size += int32(delta + len(bname))
+			hbucket.metric.size = r.sizeWithBucketTags(hbucket.metric.metric, hbucket.bucketID, bname)
 			cachedValueBuckets = append(cachedValueBuckets, hbucket)
 		}
 
@@ -510,6 +508,20 @@ func (r *reporter) newMetric(
 
 	m.Tags = r.convertTags(tags)
 	return m
+}
+
+// sizeWithBucketTags measures m the way a histogram sample is sent: with the
+// bucket id and the bucket range tags appended to its own tags.
+func (r *reporter) sizeWithBucketTags(m m3thrift.Metric, bucketID, bucket string) int32 {
+	tags := make([]m3thrift.MetricTag, 0, len(m.Tags)+2)
+	tags = append(tags, m.Tags...)
+	tags = append(
+		tags,
+		m3thrift.MetricTag{Name: r.bucketIDTagName, Value: bucketID},
+		m3thrift.MetricTag{Name: r.bucketTagName, Value: bucket},
+	)
+	m.Tags = tags
+	return r.calculateSize(m)
 }
 
 func (r *reporter) calculateSize(m m3thrift.Metric) int32 {
